@@ -12,6 +12,7 @@ import (
 	"encoding/binary"
 	"errors"
 	"fmt"
+	"math"
 	"os"
 	"runtime"
 	"sort"
@@ -70,6 +71,14 @@ type Val struct {
 	Acct int `json:"a"`
 	TS   int `json:"ts"`
 	Head int `json:"h"` // index of the cited ACL record (mod history length); <0: an id nobody knows
+	// Huge != 0: a remote author's timestamp outside what the store can keep exactly, or right
+	// at that border: 1 = consecutive values around 2^53 (2^53-4 ...: the border itself and
+	// pairs above it that collapse under float64 rounding), 2 = consecutive UnixNano-sized
+	// values (collapse), 3 = MaxInt64 downwards (rounds to 2^63), 4 = negative, 5 = huge but
+	// spaced so that they stay distinct after rounding. Always distinct per case.
+	Huge int `json:"huge,omitempty"`
+	// Exact != 0: this very timestamp (hand-written probes only).
+	Exact int64 `json:"exact,omitempty"`
 }
 
 // Item is one delivery of a candidate, possibly mutated on the way.
@@ -191,6 +200,7 @@ func genCaseWith(rt *rapid.T, allFaults bool) Case {
 			Acct: rapid.SampledFrom([]int{0, 0, 1, 1, 1, 2, 3, 4, 5}).Draw(rt, "acct"),
 			TS:   rapid.SampledFrom([]int{0, 1, 2, 3, 4, 5, 6, 8, 10, 12, 15, 20, 30, 1000}).Draw(rt, "ts"),
 			Head: rapid.SampledFrom([]int{-1, 0, 1, 2, 3, 3, 4, 5, 6, 7, 8, 9}).Draw(rt, "head"),
+			Huge: rapid.SampledFrom([]int{0, 0, 0, 0, 0, 0, 0, 0, 0, 1, 1, 2, 3, 4, 5}).Draw(rt, "huge"),
 		})
 	}
 	nOps := rapid.IntRange(3, vstat.Pick(14, 30)).Draw(rt, "nops")
@@ -209,8 +219,15 @@ func genCaseWith(rt *rapid.T, allFaults bool) Case {
 			base := rapid.IntRange(0, 24).Draw(rt, "burstTS")
 			first := len(c.Vals)
 			nb := rapid.IntRange(3, 4).Draw(rt, "burstVals")
+			// a third of the bursts carries timestamps float64 cannot represent (one class per burst:
+			// LWW among them; index order = candidate order, so the burst stays ascending)
+			hugeBurst := rapid.SampledFrom([]int{0, 0, 0, 0, 0, 0, 1, 1, 2, 3, 4, 5}).Draw(rt, "burstHuge")
 			for j := 0; j < nb; j++ {
-				c.Vals = append(c.Vals, Val{Key: sl.k, Dev: sl.d, Acct: rapid.SampledFrom([]int{0, 0, 0, 1}).Draw(rt, "burstAcct"), TS: base + j, Head: rapid.SampledFrom([]int{0, 0, 0, 1}).Draw(rt, "burstHead")})
+				ts := base + j
+				if hugeBurst != 0 {
+					ts = base // within a class the candidate index orders the timestamps
+				}
+				c.Vals = append(c.Vals, Val{Key: sl.k, Dev: sl.d, Acct: rapid.SampledFrom([]int{0, 0, 0, 1}).Draw(rt, "burstAcct"), TS: ts, Head: rapid.SampledFrom([]int{0, 0, 0, 1}).Draw(rt, "burstHead"), Huge: hugeBurst})
 			}
 			s := st.Draw(rt, "s")
 			if rapid.IntRange(0, 3).Draw(rt, "burstPre") != 0 {
@@ -277,11 +294,33 @@ func genFaultCase(rt *rapid.T) Case { return genCaseWith(rt, true) }
 // ---- forging and mutation ------------------------------------------------------------------
 
 func (v Val) micro(i int) int64 {
-	if v.TS >= 1_000_000 {
-		// outside the generated domain (hand-written probes only): timestamps beyond 2^53
-		return 1<<60 + int64(v.TS-1_000_000)
+	if v.Exact != 0 {
+		return v.Exact
+	}
+	n := int64((v.TS%8)*tsSlots + i) // distinct per candidate of a case
+	switch v.Huge {
+	case 1:
+		return exactBound - 4 + n
+	case 2:
+		return 1_700_000_000_000_000_001 + n
+	case 3:
+		return math.MaxInt64 - n
+	case 4:
+		return -1 - n
+	case 5:
+		return 1_800_000_000_000_000_001 + 4096*n
 	}
 	return epochMicro + 2*int64(v.TS*tsSlots+i) + 1
+}
+
+const exactBound = int64(1) << 53 // timestamps in [0, 2^53] survive the store's float64 number exactly
+
+func outOfRange(ts int64) bool { return ts < 0 || ts > exactBound }
+
+// sameTS: inside the exact range the stored number must be the signed one; outside, the
+// statement only speaks about WHICH value is kept, so only the value bytes are compared.
+func sameTS(stored, signed int64) bool {
+	return stored == signed || outOfRange(signed)
 }
 
 func (w *world) headId(h int) string {
@@ -526,12 +565,27 @@ type model map[string]entry
 type alt struct {
 	name   string
 	refile bool
-	m      []model // per store
+	// how a value whose timestamp the store cannot keep exactly is treated — the statement
+	// fixes only that the outcome does not depend on arrival order: 0 = refused above 2^53
+	// and below 0, 1 = refused from 2^53 on and below 0, 2 = kept, ordered by the exact value
+	rangeMode int
+	m         []model // per store
+}
+
+func (a *alt) refusesTS(ts int64) bool {
+	switch a.rangeMode {
+	case 0:
+		return ts < 0 || ts > exactBound
+	case 1:
+		return ts < 0 || ts >= exactBound
+	}
+	return false
 }
 
 type applyResult struct {
 	valid, stored, older bool
 	why                  string
+	prev                 int64 // timestamp the slot held before (0: nothing)
 }
 
 func (a *alt) apply(w *world, s *store, p *spacesyncproto.StoreKeyValue) (res applyResult) {
@@ -544,8 +598,15 @@ func (a *alt) apply(w *world, s *store, p *spacesyncproto.StoreKeyValue) (res ap
 		res.why = "rej-relabel"
 		return
 	}
+	if a.refusesTS(ri.ts) {
+		res.why = "rej-timestamp-range"
+		return
+	}
 	res.valid = true
 	cur, ok := a.m[s.idx][ri.trueId]
+	if ok {
+		res.prev = cur.ts
+	}
 	if ok && cur.ts >= ri.ts {
 		res.older = cur.ts > ri.ts
 		return
@@ -676,7 +737,7 @@ func (r *runner) consistent(s *store, o observed) error {
 		if id != ri.trueId {
 			return fmt.Errorf("AUTHENTICITY: a value signed for slot %s (key %q, device %d) is filed under slot %s", short(ri.trueId), ri.key, ri.dev, short(id))
 		}
-		if kv.TimestampMicro != ri.ts {
+		if !sameTS(kv.TimestampMicro, ri.ts) {
 			return fmt.Errorf("stored document %s carries timestamp %d, its signed bytes say %d", short(id), kv.TimestampMicro, ri.ts)
 		}
 		if ok, why := r.w.authorised(ri, s.aclLen); !ok {
@@ -717,7 +778,7 @@ func (r *runner) matches(o observed, m model) string {
 		if !ok {
 			return fmt.Sprintf("slot %s: the model holds the value with timestamp %+d, the store holds nothing", short(id), e.ts-epochMicro)
 		}
-		if kv.TimestampMicro != e.ts {
+		if !sameTS(kv.TimestampMicro, e.ts) {
 			return fmt.Sprintf("slot %s: the greatest valid timestamp received is %+d, the store holds %+d", short(id), e.ts-epochMicro, kv.TimestampMicro-epochMicro)
 		}
 		if string(kv.Value.Value) != string(e.value) || string(kv.Value.IdentitySignature) != string(e.idSig) || string(kv.Value.PeerSignature) != string(e.peerSig) {
@@ -738,7 +799,7 @@ func (r *runner) matches(o observed, m model) string {
 				return fmt.Sprintf("Iterate reports %s which is not in the model", short(id))
 			}
 			kv := o.byId["iterate/"+id]
-			if kv.Key != key || string(kv.Value.Value) != string(e.value) || kv.TimestampMicro != e.ts {
+			if kv.Key != key || string(kv.Value.Value) != string(e.value) || !sameTS(kv.TimestampMicro, e.ts) {
 				return fmt.Sprintf("Iterate reports %s under key %q with other contents than the winning value", short(id), key)
 			}
 			if seen[id] {
@@ -767,7 +828,7 @@ func (r *runner) matches(o observed, m model) string {
 				return fmt.Sprintf("GetAll(%q) reports %s which is not in the model", key, short(id))
 			}
 			kv := o.byId["getall/"+id]
-			if string(kv.Value.Value) != string(e.value) || kv.TimestampMicro != e.ts {
+			if string(kv.Value.Value) != string(e.value) || !sameTS(kv.TimestampMicro, e.ts) {
 				return fmt.Sprintf("GetAll(%q) reports %s with other contents than the winning value", key, short(id))
 			}
 			if kv.Key == key {
@@ -856,6 +917,11 @@ func (r *runner) applyBatchTo(alts []*alt, s *store, batch []*spacesyncproto.Sto
 			if ai != 0 || !classify {
 				continue
 			}
+			if ri := r.w.judge(p, s.aclLen); ri.ok && (!ri.relabel || a.refile) && outOfRange(ri.ts) {
+				r.class("ts-out-of-range-offered")
+			} else if ri.ok && ri.ts >= exactBound-4 && ri.ts <= exactBound {
+				r.class("ts-at-the-2^53-border")
+			}
 			if !res.valid {
 				r.class(res.why)
 				rejectedBefore = true
@@ -872,6 +938,15 @@ func (r *runner) applyBatchTo(alts []*alt, s *store, batch []*spacesyncproto.Sto
 			}
 			if !res.stored && !res.older {
 				r.class("repetition")
+			}
+			if ri.ts >= exactBound {
+				r.class("ts-beyond-2^53")
+				if res.stored {
+					r.class("ts-beyond-2^53-stored")
+				}
+				if res.prev >= exactBound && res.prev != ri.ts {
+					r.class("lww-among-huge-timestamps")
+				}
 			}
 			if res.stored {
 				r.class("stored")
@@ -1176,6 +1251,59 @@ func (r *runner) opSet(op Op, step string) error {
 
 // opSync: one real sync exchange a -> b. Reference: each side is offered everything the
 // other side stored (LWW makes the not-newer ones no-ops), judged with its own ACL view.
+// reopened compares the live index of store s with the index a restart would build from
+// the same database (innerstorage.New: the start-up path of keyvaluestorage.New): same
+// elements, same hash, the hash advertised in head storage is the rebuilt one, and a diff
+// between the live replica and the restarted one reports nothing in either direction.
+func (r *runner) reopened(s *store, step string) error {
+	live := s.svc.DefaultStore().InnerStorage().Diff()
+	liveHash := live.Hash()
+	liveEls := map[string]string{}
+	for _, el := range live.Elements() {
+		liveEls[el.Id] = el.Head
+	}
+	before, err := s.space.HeadStorage().GetEntry(bg, r.w.kvId)
+	if err != nil {
+		return err
+	}
+	s.db.Reset()
+	restarted, err := innerstorage.New(bg, r.w.kvId, s.space.HeadStorage(), s.db)
+	if err != nil {
+		return fmt.Errorf("%s: store %d: rebuilding the index from its database: %v", step, s.idx, err)
+	}
+	rd := restarted.Diff()
+	for _, el := range rd.Elements() {
+		h, ok := liveEls[el.Id]
+		if !ok {
+			return fmt.Errorf("%s: store %d: after a restart the index would hold %s, the live index does not", step, s.idx, short(el.Id))
+		}
+		if h != el.Head {
+			return fmt.Errorf("%s: store %d: live index advertises head %x for %s, the index rebuilt from the same database has %x", step, s.idx, h, short(el.Id), el.Head)
+		}
+		delete(liveEls, el.Id)
+	}
+	if len(liveEls) != 0 {
+		return fmt.Errorf("%s: store %d: live index holds %v which an index rebuilt from the database lacks", step, s.idx, shortKeys(liveEls))
+	}
+	if rd.Hash() != liveHash {
+		return fmt.Errorf("%s: store %d: live Hash() %s, hash after a restart %s (same database)", step, s.idx, liveHash, rd.Hash())
+	}
+	if len(before.Heads) != 1 || before.Heads[0] != rd.Hash() {
+		return fmt.Errorf("%s: store %d: head storage advertises %v, an index rebuilt from the database hashes to %s", step, s.idx, before.Heads, rd.Hash())
+	}
+	for dir, pair := range [][2]ldiff.Diff{{live, rd}, {rd, live}} {
+		n, c, rm, err := pair[0].Diff(bg, pair[1])
+		if err != nil {
+			return err
+		}
+		if len(n)+len(c)+len(rm) != 0 {
+			return fmt.Errorf("%s: store %d: diff between the live replica and the same replica restarted (direction %d) reports new=%v changed=%v removed=%v", step, s.idx, dir, n, c, rm)
+		}
+	}
+	r.class("reopen-compared")
+	return nil
+}
+
 // exchange runs one real sync exchange a -> b to quiescence.
 func (r *runner) exchange(a, b *store) error {
 	p, closeFn, err := r.w.pair(a, b)
@@ -1303,6 +1431,11 @@ func (r *runner) opSync(a, b *store, step string, mustEqual, fault, responderFir
 	if err := r.check(b, step+" (responder)"); err != nil {
 		return err
 	}
+	for _, x := range []*store{a, b} {
+		if err := r.reopened(x, step); err != nil {
+			return err
+		}
+	}
 	if mustEqual {
 		oa, err := a.observe()
 		if err != nil {
@@ -1394,12 +1527,14 @@ func (r *runner) run() error {
 			r.keyOf[k+"-"+d] = k
 		}
 	}
-	for _, name := range []string{"reject", "refile"} {
-		a := &alt{name: name, refile: name == "refile"}
-		for range w.stores {
-			a.m = append(a.m, model{})
+	for mode, rname := range []string{"range(0..2^53]", "range(0..2^53)", "any-timestamp"} {
+		for _, name := range []string{"reject", "refile"} {
+			a := &alt{name: name + "/" + rname, refile: name == "refile", rangeMode: mode}
+			for range w.stores {
+				a.m = append(a.m, model{})
+			}
+			r.alts = append(r.alts, a)
 		}
-		r.alts = append(r.alts, a)
 	}
 	for _, s := range w.stores {
 		if err := r.check(s, "initially"); err != nil {
@@ -1443,6 +1578,9 @@ func (r *runner) run() error {
 	}
 	for _, s := range w.stores {
 		if err := r.check(s, "after all arrivals"); err != nil {
+			return err
+		}
+		if err := r.reopened(s, "after all arrivals"); err != nil {
 			return err
 		}
 	}
